@@ -276,7 +276,7 @@ def run(ctx):
                     removed = None
                     if clo:
                         pe = PredEval(prog)
-                        dom = [chr(c) for c in range(0x20, 0x7f)] + ["‌", "‍", "।", "ক", "া", "্"]
+                        dom = [chr(c) for c in range(0x20, 0x7f)] + ["‌", "‍", "।", "॥"] + [chr(c) for c in range(0x0980, 0x0A00)]
                         kept = set()
                         removed = set()
                         okp = True
@@ -297,7 +297,8 @@ def run(ctx):
                             r5.violation("clean", "the cleaning filter keeps %s — a typed %s reaches the pattern unescaped (regex meta) or defeats the prefix match (joiner)"
                                          % (" ".join(repr(m) for m in miss), "character"), common.fn_line(prog, cleaner))
                         elif lost:
-                            r5.violation("clean", "the cleaning filter removes Bengali letters %r" % lost, common.fn_line(prog, cleaner))
+                            r5.violation("clean", "the cleaning filter removes %s from the typed word — letters / signs of the Bengali block belong to the word, without them "
+                                         "the prefix match runs for a different word" % " ".join("U+%04X" % ord(c) for c in lost), common.fn_line(prog, cleaner))
                         else:
                             r5.ok("clean", "removes %d characters incl. all regex meta-characters and U+200C; keeps Bengali letters" % len(removed))
     r5.floor(3, "pattern, class, clean")
